@@ -287,3 +287,123 @@ Proof.
   - destruct (rdf_attr_roundtrip c x_m (x_q "k") a' (VInt 5) (VInt 5) NR NF (rdf_rt_int c x_m 5 x_xsdres))
       as [t [E [B _]]]. inversion E; subst t. exact B.
 Qed.
+
+(* ================================================================== a whole element *)
+(* what one pair becomes: its name and value as read back *)
+Definition pair_back (c : actx) (m : nsm) (kv kv' : qname * value) : Prop :=
+  NameRes c m (fst kv) (fst kv') /\ is_formal_attr (fst kv') = false /\ rdf_rt c m (snd kv) (snd kv').
+
+Definition add_pairs (pairs : list (qname * value)) (d : list (qname * list value)) : list (qname * list value) :=
+  fold_left (fun d kv => attr_add (fst kv) (snd kv) d) pairs d.
+
+Lemma put_all_plain : forall pairs d, Forall (fun kv : qname * value => is_formal_attr (fst kv) = false) pairs ->
+  put_all false pairs d = Some (add_pairs pairs d).
+Proof.
+  induction pairs as [|[k v] pairs IH]; intros d F; [reflexivity|].
+  inversion F as [|x l NF F']; subst. cbn [fst] in NF. cbn [put_all negb andb]. rewrite NF.
+  unfold add_pairs. cbn [fold_left fst snd]. apply IH. exact F'.
+Qed.
+
+Lemma names_collection_decoded : forall l : list (namearg * valarg),
+  Forall (fun na => match fst na with NStr _ => True | NQn q => is_prov_name "collection" q = false | NId _ => False end) l ->
+  names_collection l = false.
+Proof.
+  induction l as [|[n a] l IH]; intros F; [reflexivity|].
+  inversion F as [|x y H F']; subst. unfold names_collection. cbn [existsb fst].
+  destruct n as [q|s|u]; cbn [fst] in H; [rewrite H | | contradiction]; cbn [orb]; apply IH; exact F'.
+Qed.
+
+Lemma dec_elem_name_shape : forall p,
+  match dec_elem_name p with NStr _ => True | NQn q => is_prov_name "collection" q = false | NId _ => False end.
+Proof.
+  intros p. unfold dec_elem_name. destruct (String.eqb p rdf_type); [vm_compute; reflexivity|].
+  destruct (lookup p rdf_predicate_mapper); exact Logic.I.
+Qed.
+
+Theorem rdf_element_roundtrip : forall par ft b kind q q' pairs pairs',
+  let c := mkCtx par ft in
+  let m := bns b in
+  UriRes par m (qn_uri q) q' -> qn_uri q <> "" ->
+  Forall2 (pair_back c m) pairs pairs' ->
+  exists ts,
+    rdf_element_triples pairs = Some ts /\
+    rdf_read_element par ft b kind (qn_uri q) ts
+    = (add_rec_to b (mkRec kind (Some q') (add_pairs pairs' [])), OK (mkRec kind (Some q') (add_pairs pairs' []))).
+Proof.
+  intros par ft b kind q q' pairs pairs' c m [RQ [UQ BQ]] NEQ F.
+  assert (D : exists ts args, rdf_element_triples pairs = Some ts /\ rdf_decode_args par m ts = OK args /\
+                              Forall2 (arg_ok c m) args pairs' /\
+                              Forall (fun na => match fst na with NStr _ => True | NQn q0 => is_prov_name "collection" q0 = false | NId _ => False end) args).
+  { induction F as [|[a v] [a' v'] pairs pairs' [NR [NF [t [va [E [DC [NN [AC _]]]]]]]] F IH].
+    - exists [], []. repeat split; constructor.
+    - destruct IH as [ts [args [E1 [D1 [A1 S1]]]]]. cbn [fst snd] in *.
+      exists ((enc_elem_pred a, t) :: ts), ((dec_elem_name (enc_elem_pred a), va) :: args).
+      split; [cbn [rdf_element_triples]; rewrite E, E1; reflexivity|].
+      split; [cbn [rdf_decode_args]; change (cparent c) with par in DC; rewrite DC, D1; reflexivity|].
+      split; [|constructor; [apply dec_elem_name_shape | exact S1]].
+      constructor; [|exact A1]. unfold arg_ok. cbn [fst snd]. split; [exact NN|]. split; [exact (proj1 NR)|].
+      unfold insert_value. destruct (formal_split a' NF) as [Q T]. rewrite Q, T. exact AC. }
+  destruct D as [ts [args [E [DA [FA SH]]]]]. exists ts. split; [exact E|].
+  unfold rdf_read_element. fold m. rewrite DA. unfold new_record. fold c. fold m.
+  assert (IDR : resolve_o c m (NStr (qn_uri q)) = Done m (Some q')).
+  { unfold resolve_o. destruct (qn_uri q) as [|ch s] eqn:EU; [contradiction|]. cbn [resolve].
+    change (cparent c) with par. rewrite RQ. reflexivity. }
+  rewrite IDR. unfold new_prec. rewrite andb_false_r.
+  assert (NFs : Forall (fun kv : qname * value => is_formal_attr (fst kv) = false) pairs').
+  { clear -F. induction F as [|kv kv' l l' [_ [NF _]] F IH]; constructor; assumption. }
+  assert (AA : add_attributes c m (mkRec kind (Some q') []) args = ADone m (mkRec kind (Some q') (add_pairs pairs' []))).
+  { unfold add_attributes. destruct args as [|a0 args'] eqn:EAr.
+    - inversion FA; subst. reflexivity.
+    - rewrite <- EAr in *. cbn [rattrs rkind rid]. rewrite (names_collection_decoded args SH).
+      rewrite (loop_fixed c false m args pairs' [] _ FA (put_all_plain pairs' [] NFs)). reflexivity. }
+  rewrite AA. assert (WB : with_ns b m = b) by (unfold m; destruct b; reflexivity). rewrite WB. reflexivity.
+Qed.
+
+(* the premises of the element theorem are satisfiable: ex:s with ex:k = 5 and ex:k = ex:v *)
+Example rdf_element_applies :
+  exists q' a' v', qn_uri q' = "http://e/s" /\ qn_uri a' = "http://e/k" /\ qn_uri v' = "http://e/v" /\
+    exists ts, rdf_element_triples [(x_q "k", VInt 5); (x_q "k", VQn (x_q "v"))] = Some ts /\
+      rdf_read_element None [] x_b "Entity" "http://e/s" ts
+      = (add_rec_to x_b (mkRec "Entity" (Some q') (add_pairs [(a', VInt 5); (a', VQn v')] [])),
+         OK (mkRec "Entity" (Some q') (add_pairs [(a', VInt 5); (a', VQn v')] []))).
+Proof.
+  set (c := mkCtx None []).
+  destruct (compactable_res None x_m _ x_InvB (x_compactable "s")) as [q' RS].
+  destruct (compactable_res None x_m _ x_InvB (x_compactable "k")) as [a' RA].
+  destruct (compactable_res None x_m _ x_InvB (x_compactable "v")) as [v' RV].
+  assert (NR : NameRes c x_m (x_q "k") a') by (apply name_res_plain; [vm_compute; reflexivity | discriminate | exact RA]).
+  assert (NF : is_formal_attr a' = false).
+  { unfold is_formal_attr, is_qname_attr, is_time_attr, in_prov_set, is_prov_name.
+    rewrite (proj1 (proj2 RA)). vm_compute. reflexivity. }
+  exists q', a', v'. split; [exact (proj1 (proj2 RS))|]. split; [exact (proj1 (proj2 RA))|]. split; [exact (proj1 (proj2 RV))|].
+  apply (rdf_element_roundtrip None [] x_b "Entity" (x_q "s") q' _ _ RS ltac:(discriminate)).
+  constructor; [|constructor; [|constructor]].
+  - split; [exact NR|]. split; [exact NF|]. apply rdf_rt_int. exact x_xsdres.
+  - split; [exact NR|]. split; [exact NF|]. apply rdf_rt_qn. exact RV.
+Qed.
+
+(* ---- the endpoints and the time of a relation: the reader hands a subject or object URI as a plain string to the
+   factory (and a qualified node's reference as the decoded name), a time as the decoded datetime; the insertion
+   code of a reference-valued formal attribute stores a name of exactly that URI, of a time-valued one the instant *)
+Theorem rdf_endpoint_string : forall c m u q', UriRes (cparent c) m u q' -> u <> "" ->
+  qn_value c m (AStr u) = Done m (Some (VQn q')).
+Proof.
+  intros c m u q' [R _] NE. unfold qn_value, resolve_o. destruct u as [|ch s]; [contradiction|].
+  cbn [resolve]. rewrite R. reflexivity.
+Qed.
+
+Theorem rdf_endpoint_term : forall c m u q', UriRes (cparent c) m u q' ->
+  exists va, rdf_decode (cparent c) m (RUri u) = OK va /\ qn_value c m va = Done m (Some (VQn q')).
+Proof.
+  intros c m u q' [R [_ Bd]]. exists (AQn q'). split; [unfold rdf_decode; rewrite R; reflexivity|].
+  unfold qn_value. rewrite (resolve_o_bound c m q' Bd). reflexivity.
+Qed.
+
+Theorem rdf_relation_time : forall c m t, valid_dt t = true ->
+  exists va, rdf_encode (VTime t) = Some (RLit (iso_print t) (Some (xsdu "dateTime")) None) /\
+             rdf_decode (cparent c) m (RLit (iso_print t) (Some (xsdu "dateTime")) None) = OK va /\
+             time_value m va = Done m (Some (VTime t)).
+Proof.
+  intros c m t V. exists (ATime t). split; [reflexivity|]. split; [|reflexivity].
+  unfold rdf_decode. xsd_tests. rewrite (parse_datetime_print t V). reflexivity.
+Qed.
